@@ -17,9 +17,8 @@ def pick(rng, options, p=None):
 def draw_schedule(rng, allow_fixed=True, allow_cap=True):
     """Schedule options of SMCSampler.sample."""
     sk = {}
-    mode = pick(rng, ["adaptive", "adaptive_ramp", "fixed", "adaptive_min_step", "adaptive_cap"],
-                p=[0.35, 0.15, 0.2 if allow_fixed else 0.0, 0.15, 0.15 if allow_cap else 0.0] / np.sum(
-                    [0.35, 0.15, 0.2 if allow_fixed else 0.0, 0.15, 0.15 if allow_cap else 0.0]))
+    w = np.array([0.3, 0.15, 0.2 if allow_fixed else 0.0, 0.12, 0.13 if allow_cap else 0.0, 0.1 if allow_cap else 0.0])
+    mode = pick(rng, ["adaptive", "adaptive_ramp", "fixed", "adaptive_min_step", "adaptive_cap", "adaptive_min_step_cap"], p=w / w.sum())
     if mode == "fixed":
         sk["adaptive"] = False
         sk["n_steps"] = int(rng.integers(1, 9))
@@ -36,6 +35,11 @@ def draw_schedule(rng, allow_fixed=True, allow_cap=True):
             sk["min_step"] = float(pick(rng, [0.05, 0.1, 0.25, 0.5]))
         if mode == "adaptive_cap":
             sk["max_n_steps"] = int(rng.integers(2, 8))
+        if mode == "adaptive_min_step_cap":
+            # an explicit small floor switches the adaptive floor off: the cap can be hit with beta still below 1
+            sk["min_step"] = float(pick(rng, [0.002, 0.01, 0.05]))
+            sk["max_n_steps"] = int(rng.integers(2, 5))
+            sk["target_efficiency"] = float(np.round(rng.uniform(0.7, 0.95), 3))
     return sk, mode
 
 
@@ -76,6 +80,9 @@ def draw_smc_scenario(
         sk["n_final_samples"] = max(4, n // 2)
     elif nf == "larger":
         sk["n_final_samples"] = n + int(rng.integers(3, 20))
+    if nf != "none" and sampler == "smc" and rng.integers(2) == 0:
+        # a separate kernel length for the final enlargement (a sampler_kwargs option the loop pops)
+        sk["sampler_kwargs"]["n_final_steps"] = int(sk["sampler_kwargs"]["n_steps"]) + int(rng.integers(1, 3))
     pc = pick(rng, list(preconds))
     precond, pkw = None, None
     if pc in (None, "none", "default", "flow"):
